@@ -8,7 +8,7 @@ TECHNIQUE = 'Lean 4: _discard_contents proved against the significant-token abst
 LEAN_TARGET = "CxxModel.Props.C13"
 THEOREMS = ["Cxx.C13_discard_resumes", "Cxx.C13_discard_exact", "Cxx.C13_discard_content_irrelevant", "Cxx.C13_balanced_region",
             "Cxx.C13_declspec_resumes", "Cxx.C13_gcc_attribute_resumes", "Cxx.C13_static_assert_resumes", "Cxx.C13_balanced_tables",
-            "Cxx.balTableOK", "Cxx.tokLoop_complete", "Cxx.discard_interp", "Cxx.interp_bind"]
+            "Cxx.balTableOK", "Cxx.tokLoop_complete", "Cxx.discard_interp", "Cxx.interp_bind", "Cxx.C13_attribute_sequence", "Cxx.attrSeq_consumes"]
 ANCHORS = ["parser.py:CxxParser._discard_contents", "parser.py:CxxParser._discard_ctor_initializer", "parser.py:CxxParser._consume_balanced_tokens",
            "parser.py:CxxParser._consume_attribute_specifier_seq", "parser.py:CxxParser._consume_attribute", "parser.py:CxxParser._consume_gcc_attribute",
            "parser.py:CxxParser._consume_declspec", "parser.py:CxxParser._consume_static_assert", "parser.py:CxxParser._parse_function",
@@ -24,7 +24,8 @@ CARRIED_BY = {
     "what is inside a discarded region cannot influence the continuation": "theorem C13_discard_content_irrelevant",
     "the bracket table of the balanced-token matcher is the regenerated one": "theorem C13_balanced_tables",
     "the balanced-token matcher ([[ ]], alignas, __declspec, __attribute__(( ))) consumes properly nested content (all five bracket kinds) up to the matching closer and returns exactly those tokens; _consume_declspec, _consume_gcc_attribute, _consume_static_assert end right after their region": "theorems C13_balanced_region, C13_declspec_resumes, C13_gcc_attribute_resumes, C13_static_assert_resumes (every content, stream state, parser state)",
-    "unbalanced `<`/`>` inside attribute arguments (tolerance rule), [[ ]] sequences, the ctor-initializer scan, and that each construct calls its consumer": "oracle `soup` + correspondence `parse[regions]` (not proof)",
+    "sequences of `[[ ]]` and `alignas( )` groups of any length are consumed whole and the token after them stays in the stream": "theorem C13_attribute_sequence",
+    "unbalanced `<`/`>` inside attribute arguments (tolerance rule), the ctor-initializer scan, and that each construct calls its consumer": "oracle `soup` + correspondence `parse[regions]` (not proof)",
 }
 ASSUMPTIONS = ["soups contain no preprocessor lines", "tokens are never glued (`[` `[` would lex as `[[`): the soup is a sequence of lexer tokens"]
 MODEL_COVERAGE = "Parser/Basic.lean: discardContents, consumeBalancedTokens; Parser/Decl.lean: attribute and static_assert consumers, discardCtorInitializer"
